@@ -1,4 +1,4 @@
-import VyxalModel.Lemmas.Compile2
+import VyxalModel.Lemmas.ListLit
 /-!
 # The induction: fuel outside, program structure inside
 
@@ -12,12 +12,6 @@ namespace Vy.Sem
 open Vy PyAst
 
 variable {env : TEnv} {A : Option Val}
-
-@[simp] theorem ex_ok_bind {ε α β} (a : α) (f : α → Except ε β) : ((Except.ok a : Except ε α) >>= f) = f a := rfl
-@[simp] theorem ex_err_bind {ε α β} (e : ε) (f : α → Except ε β) : ((Except.error e : Except ε α) >>= f) = .error e := rfl
-@[simp] theorem ex_map_ok {ε α β} (a : α) (f : α → β) : (f <$> (Except.ok a : Except ε α)) = .ok (f a) := rfl
-@[simp] theorem ex_map_err {ε α β} (e : ε) (f : α → β) : (f <$> (Except.error e : Except ε α)) = .error e := rfl
-@[simp] theorem ex_pure {ε α} (a : α) : (pure a : Except ε α) = .ok a := rfl
 
 /-- statement-level simulation at fuel `n` -/
 def SimSn (cfg : Cfg) (env : TEnv) (n : Nat) (s : Structure) (code : List PyStmt) : Prop :=
@@ -190,6 +184,43 @@ theorem simS_lam (cfg : Cfg) (n : Nat) (ar : Option Nat) (body : List Structure)
   exact ⟨π', by simpa [sigP] using he, by simpa [Post] using hR⟩
 
 
+/-- a list literal -/
+theorem simS_list (cfg : Cfg) (n : Nat) (ih : ∀ m, m < n → SimAt cfg env m) (items : List (List Structure)) (k : Nat)
+    (cs : List (List PyStmt)) (k' : Nat) (hf : fragLL env.elements items = true) (ht : transpileLL env k items = .ok (cs, k')) :
+    SimSn cfg env n (.listS items) (listTemplate cs) := by
+  intro A σ π sg σ' h hr
+  unfold execS at hr
+  cases hli : listItems cfg n items σ with
+  | error e => simp [hli] at hr
+  | ok r =>
+    obtain ⟨vals, σ1⟩ := r
+    simp [hli] at hr; obtain ⟨h1, h2⟩ := hr; subst h1; subst h2
+    -- temp_list = []
+    have s1 : execPS cfg n (assign1 (nm "temp_list") (.list [])) π = .ok (.normal, π.setVar ("temp_list", []) (.list [])) := by
+      simp [assign1, nm, execPS, evalE, evalArgs, assignTo]
+    have hR1 := h.setJunk "temp_list" (.list []) (by decide)
+    have hitems : ∃ π2, execPL cfg n ((cs.map listItemTemplate).flatten) (π.setVar ("temp_list", []) (.list [])) = .ok (.normal, π2) ∧
+        Rel env A σ1 π2 ∧ π2.getVar ("temp_list", []) = some (.list vals) := by
+      cases n with
+      | zero =>
+        cases items with
+        | nil =>
+          simp [transpileLL] at ht; obtain ⟨e1, _⟩ := ht; subst e1
+          simp [listItems] at hli; obtain ⟨e1, e2⟩ := hli; subst e1; subst e2
+          exact ⟨_, by simp [execPL], hR1, getVar_setVar_eq _ _ _⟩
+        | cons i r => simp [listItems] at hli
+      | succ m =>
+        have := sim_listItems cfg m (ih m (by omega)) items k cs k' hf ht [] vals σ1 hR1 (getVar_setVar_eq _ _ _) hli
+        simpa using this
+    obtain ⟨π2, he2, hR2, hacc2⟩ := hitems
+    have hev : evalE cfg n (callN "list" [callN "deep_copy" [nm "temp_list"]]) π2 = .ok (.list vals, π2) := by
+      simp [callN, nm, evalE, evalSpecial, hacc2]
+    obtain ⟨he3, hR3⟩ := exec_push cfg n _ _ hev hR2
+    refine ⟨_, ?_, hR3⟩
+    simp only [listTemplate, List.append_assoc, List.cons_append, List.nil_append, execPL_cons, s1]
+    rw [execPL_append, he2]
+    simp only [execPL_cons, he3, execPL, sigP]
+
 theorem sims_orPass' {cfg : Cfg} {n : Nat} {l : List Structure} {a : List PyStmt} (h : Sims cfg env n l a) : Sims cfg env n l (orPass a) := by
   intro A σ π sg σ' hR hr
   rw [execPL_orPass]; exact h A σ π sg σ' hR hr
@@ -324,7 +355,15 @@ theorem simS (cfg : Cfg) (env : TEnv) (hE : cfg.elements = env.elements) (n : Na
           exact sim_tok cfg env hE n (fun m hm => ih m (by omega)) ⟨.general, lamOpKey kind⟩ hf.2 a hta hR1 sg σ' htok
   | .fnCall _, hf, _, _, _, _ => by simp [fragS] at hf
   | .fnDef _ _ _, hf, _, _, _, _ => by simp [fragS] at hf
-  | .listS _, hf, _, _, _, _ => by simp [fragS] at hf
+  | .listS items, hf, k, code, k', ht => by
+      simp only [fragS] at hf
+      simp only [transpileS] at ht
+      cases hll : transpileLL env k items with
+      | error e => simp [hll] at ht
+      | ok r =>
+        obtain ⟨cs, k1⟩ := r
+        simp [hll] at ht; obtain ⟨h1, _⟩ := ht; subst h1
+        exact simS_list cfg n ih items k cs k1 hf hll
   | .mon _ _, hf, _, _, _, _ => by simp [fragS] at hf
   | .dy _ _ _, hf, _, _, _, _ => by simp [fragS] at hf
   | .tri _ _ _ _, hf, _, _, _, _ => by simp [fragS] at hf
